@@ -1069,6 +1069,7 @@ static int http_response_process_headers(request_st * const restrict r, http_res
                      * read from backend until backend close, hope for the best)
                      *(might choose to treat this as 502 Bad Gateway) */
                     r->resp_body_scratchpad = -1;
+                    continue; /*(do not send invalid Content-Length to client)*/
                 }
             }
             else {
